@@ -32,7 +32,7 @@ TInit ==
 
 \* Real library models (flux, conversion, collection - C17) do not log; when a
 \* trace is marked `real` their calls are steps the recording cannot see.
-RealKinds == {"flux", "conv", "collect"}
+RealKinds == {"flux", "conv", "collect", "loaddet"}
 IsReal == "real" \in DOMAIN Traces[tid] /\ Traces[tid].real
 AtRealModel ==
   /\ pc = "run" /\ g <= NG
